@@ -4,6 +4,7 @@ pub mod gen_fml;
 pub mod gen_inst;
 pub mod inst;
 pub mod oracle_frames;
+pub mod oracle_tlv;
 pub mod oracle_view;
 pub mod time;
 pub mod wire;
